@@ -102,7 +102,11 @@ def s1_s2(ck, an):
     # __getitem__ / __len__ read the containers consistently
     fg = an.fa("TrackRecord.__getitem__")
     rets = [fg.sym.canon(r.value) for r in returns_in(fg)]
-    ck.check("self._rebalancing[self._time[item]]" in rets and "self._rebalancing[item]" in rets, "ARGFLOW", "S7.getitem", fg.f.short, fg.f.loc, "record[i] is the i-th entry in time order, record[t] the entry at t",
+    ip = fg.f.params[1]
+    fvg = function_value(fg)
+    forms = {specv(fg, f"self._rebalancing[{ip}] if isinstance({ip}, datetime) else self._rebalancing[self._time[{ip}]]").key(),
+             specv(fg, f"self._rebalancing[{ip} if isinstance({ip}, datetime) else self._time[{ip}]]").key()}        # the selection may be made on the key or on the entry
+    ck.check((fvg is not None and fvg.key() in forms) or ("self._rebalancing[self._time[item]]" in rets and "self._rebalancing[item]" in rets), "ARGFLOW", "S7.getitem", fg.f.short, fg.f.loc, "record[i] is the i-th entry in time order, record[t] the entry at t",
              f"__getitem__ returns {rets}", construct="__getitem__")
 
 
